@@ -97,7 +97,9 @@ class P(ServeProp):
                 elif r < 0.75: s = "-%d" % a
                 elif r < 0.8: s = rnd.choice(["a-b", "-", "", "--1", "1-2-3", "1--2", "+1-2", "0x1-2", "1-", "-1-", " ", "1 2", "١-٢"])
                 else: s = "%d-%d" % (rnd.randrange(0, L + 1), rnd.randrange(0, L + 1))
-                if rnd.random() < 0.15: s = " " + s.replace("-", " - ") + " "
+                if rnd.random() < 0.15:
+                    w = ("\t", " \t", " ")[(a + b) % 3]       # optional white space is SP or HTAB (chosen without drawing, so that the streams of earlier runs stay)
+                    s = w + s.replace("-", w + "-" + w) + w
                 return s
             k = rnd.choice([1, 1, 1, 2, 2, 3, 6])
             val = "bytes=" + ",".join(spec() for _ in range(k))
